@@ -187,6 +187,10 @@ class Protocol(Flow):
                 s = s | {("closed", next(iter(a)))}
             elif op == "commit":
                 s = s | {("committed",)}
+            elif op == "write" and isinstance(n, ast.Call) and unparse(n.func).startswith("shutil.copy"):
+                # a synchronous file copy has finished when the call returns
+                for c in a:
+                    s = s | {("copied_whole", c)}
         return [s]
 
     def transfer(self, st, state):
@@ -250,6 +254,8 @@ def rule_r1(ctx) -> RuleResult:
                 for conn, cls in w.conn_path.items():
                     if cls & src_cls and ("backup_done", conn) in st and ("closed", conn) in st:
                         finished = True
+                if any(("copied_whole", c) in st for c in src_cls):
+                    finished = True  # whether a file-level copy is a *complete* copy is R4's question
                 if finished:
                     rr.ok(dotted, unparse(n), {"fn": dotted, "publish": unparse(n), "after": "backup() returned and connection closed"})
                 else:
@@ -390,8 +396,28 @@ def rule_r4(ctx) -> RuleResult:
         return isinstance(n, ast.Call) and unparse(n.func).endswith(suffix)
 
     f = ctx.fn("core.Wtp.backup_db")
+    FILE_COPIES = ("shutil.copy", "shutil.copy2", "shutil.copyfile", "shutil.copyfileobj")
+
+    def is_file_copy(n):
+        return isinstance(n, ast.Call) and unparse(n.func) in FILE_COPIES
+
+    # the database runs in WAL mode (set by create_db): committed pages may live only in <db>-wal,
+    # so the content must be copied *through SQLite* (Connection.backup / VACUUM INTO); a file-level
+    # copy of the main file silently omits them
+    cd = ctx.fn("core.Wtp.create_db")
+    wal_mode = any(isinstance(c, ast.Constant) and isinstance(c.value, str) and "journal_mode" in c.value.lower() and "wal" in c.value.lower()
+                   for c in ast.walk(cd))
+    paths = Paths(f)
+    for n in walk_no_nested(f):
+        if is_file_copy(n) and n.args and ("DB" in paths.classify(n.args[0])):
+            if wal_mode:
+                rr.bad(Finding("C11.R4", CORE, "core.Wtp.backup_db", unparse(n)[:80],
+                               "the backup is a file-level copy of the main database file while the database is in WAL mode: pages committed but "
+                               "not yet checkpointed are only in <db>-wal and are missing from the backup, and the restore deletes that -wal", n.lineno))
+            else:
+                rr.ok("core.Wtp.backup_db", unparse(n)[:60] + " (rollback-journal mode)")
     res = dominating_calls(f, lambda n: is_call(n, "db_conn.commit"),
-                           lambda n: is_call(n, "db_conn.backup") or (is_call(n, ".execute") and "VACUUM" in unparse(n).upper()))
+                           lambda n: is_call(n, "db_conn.backup") or is_file_copy(n) or (is_call(n, ".execute") and "VACUUM" in unparse(n).upper()))
     if not res:
         raise AnalysisError("backup_db: copying call vanished")
     for n, dom in res:
